@@ -435,7 +435,7 @@ def rule_r5_terms(ctx: Ctx) -> None:
     st = ctx.cls(SER + "_composite.StructureType")
     un = ctx.cls(SER + "_composite.UnionType")
     for c, specf, what in ((st, spec_structure, "structure layout: each field is preceded by padding to its own alignment and followed by its own length set, in order"), (un, spec_union, "union layout: tag followed by the union of the variants' length sets (no tag for fewer than two variants)")):
-        fn = c.methods.get("aggregate_bit_length_sets")
+        fn = repo.lookup_method(c, "aggregate_bit_length_sets")
         if fn is None:
             raise AnalysisError("anchor %s.aggregate_bit_length_sets missing" % c.name)
         bad = []
